@@ -273,6 +273,14 @@ M('c02-guard-flipped', ['C02'], Y23 + 'f1040.py', "FloatField('34', lambda s, i,
 M('c02-reordered-summands', ['C02'], Y23 + 'f1040.py', "FloatField('14', lambda s, i, v: v['12'] + v['13']),", "FloatField('14', lambda s, i, v: float(v['13'] + v['12'])),", None, 'summands reordered and wrapped in float()', 'silent')
 M('c02-guarded-floor', ['C02'], Y23 + 'f1040.py', "FloatField('22', lambda s, i, v: max(0.0, v['18'] - v['21'])),", "FloatField('22', lambda s, i, v: v['18'] - v['21'] if v['18'] > v['21'] else 0.0),", None, 'floor written as a guarded subtraction', 'silent')
 
+# ------------------------------------------------------------------ C19: truncation in a value function, text-ordered sequence numbers
+M('r197-value-fn-truncates', ['C19'], Y23 + 'fnc_d_400.py', "TextPDFField('y_d400wf_lname2_PG2', 'your_last_name', max_length=10),", "TextPDFField('y_d400wf_lname2_PG2', 'your_last_name', max_length=10, value_fn=lambda s, v, f: v[:10]),", 'R19.7', 'a text box cuts the name to its length limit instead of refusing (seed C19-C)')
+M('k23b-sequence-as-text', ['C19'], 'habutax/pdf_filler.py', "key=lambda f: (f.jurisdiction, f.sequence_no)", "key=lambda f: (f.jurisdiction, str(f.sequence_no))", 'K23b', 'forms ordered by the sequence number as text: 71 sorts before 8 (seed C19-D)')
+M('k23b-attrgetter-key', ['C19'], 'habutax/pdf_filler.py', "key=lambda f: (f.jurisdiction, f.sequence_no)", "key=__import__('operator').attrgetter('jurisdiction', 'sequence_no')", None, 'same key through attrgetter', 'silent')
+
+# ------------------------------------------------------------------ K22a (the recorded year's forms interpret the solution)
+M('k22a-year-option-overrides', ['C14'], CLI, "    tax_year = solution.getint('habutax', 'tax_year')\n", "    tax_year = getattr(args, 'year', None)\n    if tax_year is None:\n        tax_year = solution.getint('habutax', 'tax_year')\n", 'K22a', 'a command-line year (which has a default) takes precedence over the year recorded in the solution (seed C14-D)')
+
 # ------------------------------------------------------------------ K29 (the prompt quotes the waiting lines)
 M('k29-instance-from-the-input', ['C13'], CLI, "        instance = f'Instance \\'{f.form().instance()}\\' of ' if f.form().instance() else ''\n", "", 'K29', 'the form-copy label of each quoted line is no longer computed per waiting line', more=[(CLI, "    duplicates = {}\n", "    duplicates = {}\n    instance = f'Instance \\'{missing.section()}\\' of '\n")])
 M('k29-loop-variable-renamed', ['C13'], CLI, "    for f in needed_by:\n        form_desc = f.form().full_description()\n        field_basename = f.base_name()\n        instance = f'Instance \\'{f.form().instance()}\\' of ' if f.form().instance() else ''\n", "    for waiter in needed_by:\n        wform = waiter.form()\n        form_desc = wform.full_description()\n        field_basename = waiter.base_name()\n        instance = f'Instance \\'{wform.instance()}\\' of ' if wform.instance() else ''\n", None, 'loop variable renamed and the form hoisted into a local', 'silent')
